@@ -30,6 +30,8 @@ class Ctl:
         self.fail_at = None       # raise OSError at step k
         self.fail_after = False   # ... after the call took effect (flush/fsync/close)
         self.failed = None
+        self.fail_from = None     # a device that is full from step k on: every write / flush / fsync / truncate fails,
+        self.dirty = set()        # and closing a file whose data could not be written fails after the descriptor is closed
 
     def before(self, ev):
         """called before the real call; returns True if the call must fail *after* taking effect"""
@@ -38,6 +40,14 @@ class Ctl:
             os._exit(77)
         self.n += 1
         self.log.append(ev)
+        if self.fail_from is not None and k >= self.fail_from:
+            if ev[0] in ("write", "writelines", "flush", "fsync", "truncate"):
+                self.failed = self.failed or ev
+                self.dirty.add(ev[1])
+                raise OSError(28, f"injected: no space left on device (step {k} {ev})")
+            if ev[0] == "close" and ev[1] in self.dirty:
+                self.failed = self.failed or ev
+                return True
         if self.fail_at is not None and k == self.fail_at:
             self.failed = ev
             if self.fail_after and ev[0] in ("flush", "fsync", "close"):
